@@ -116,6 +116,25 @@ harness! {
     }
 }
 
+harness! {
+    #[kani::unwind(4)]
+    fn q18_reported_status_is_the_state() {
+        // the status a helper reports is the state it is in (for every constructible state)
+        let k: u8 = kani::any();
+        let (st, kd) = state_of(k);
+        kani::assume(kd != 0); // Empty has no status (documented panic)
+        let reported = QueryStatus::from(&st);
+        let expect = match kd {
+            1 => QueryStatus::Preparing,
+            2 => QueryStatus::AwaitingInputs,
+            _ => QueryStatus::AwaitingCompletion,
+        };
+        assert!(reported == expect, "no state is reported as another one");
+        kani::cover!(kd == 4);
+        std::mem::forget(st);
+    }
+}
+
 fn status_rank(s: Option<QueryStatus>) -> u8 {
     match s {
         None => 0,
